@@ -16,7 +16,7 @@ RULE = ('each case = a valid prefix reaching varied stream states (open / half-c
         'received DATA above half the window, settings pending, undrained output), closure by one of three routes, then '
         '5-40 random public calls and received frames; non-trivial = closure reached and at least 3 post-closure actions '
         'judged; distinct = hash of (route, role, post-closure action sequence)')
-MINIMA = {'post_calls_judged': 3000, 'post_recv_judged': 1000, 'route_close_connection': 100, 'route_recv_goaway': 100,
+MINIMA = {'goaway_sharing_its_chunk_with_answered_frames': 300, 'post_calls_judged': 3000, 'post_recv_judged': 1000, 'route_close_connection': 100, 'route_recv_goaway': 100,
           'route_conn_error': 100, 'ack_after_close_judged': 200, 'pending_discard_judged': 100,
           'goaway_on_closed_connection_with_pending_output': 300}
 
@@ -83,11 +83,32 @@ def run_case(idx, rng, tier, rep):
         if bad:
             rep.violation('C19:close_connection-emitted-' + bad[0].name, 'close_connection emitted %s' % bad[0].name, wit(h, route))
     elif route == 'recv_goaway':
-        r = t.call('receive_data', wire.build_goaway(rng.choice([0, 1, 7]), rng.choice([0, 2, 11]), rng.choice([b'', b'dbg'])),
-                   _drain=not pending)
+        # the GOAWAY names any last-stream-id (0, a used one, the 2^31-1 of a graceful-shutdown notice) and may share its chunk
+        # with frames the library answers on its own: those answers are bytes not yet handed over, and go as well
+        ga = wire.build_goaway(rng.choice([0, 1, 7, 2 ** 31 - 1, 2 ** 31 - 1]), rng.choice([0, 2, 11]), rng.choice([b'', b'dbg']))
+        ahead = b''
+        if rng.random() < 0.5:
+            for _ in range(rng.choice([1, 2, 3])):
+                k = rng.randrange(5)
+                if k == 0:
+                    ahead += wire.build_ping(b'answerme')
+                elif k == 1:
+                    ahead += wire.build_settings([(3, rng.choice([10, 100]))])
+                elif k == 2 and live:
+                    ahead += wire.build_window_update(rng.choice(live), 2 ** 31 - 1)       # overflow: the library resets the stream
+                elif k == 3:
+                    ahead += wire.build_data(h.peer_next + 40 if e_client else h.peer_next - 2 if h.peer_next > 2 else 99, b'zz')
+                else:
+                    ahead += wire.build_priority(rng.choice(live) if live else 1, 0, False, 7)
+            rep.count('goaway_sharing_its_chunk_with_answered_frames')
+        r = t.call('receive_data', ahead + ga, _drain=not pending)
         if not r.ok:
             rep.count('closure_failed')
             return
+        if ahead and not pending and r.frames:
+            rep.violation('C19:answers-to-frames-ahead-of-goaway-survive',
+                          'frames answered in the same receive_data call as the GOAWAY were not discarded: %s' %
+                          [f.brief() for f in r.frames][:5], wit(h, route))
         if pending:
             out = t.call('data_to_send')
             rep.count('pending_discard_judged')
